@@ -5,3 +5,4 @@ pub mod alloc;
 pub mod circ;
 pub mod engine;
 pub mod exec;
+pub mod server;
